@@ -202,6 +202,20 @@ CLAIMED = {
     note=TB + "; specs/iec62386.py is the trusted oracle, written from memory of the standard offline; rows/flags listed as "
          "unverified in the evidence (part 202 send-twice column, REFERENCE SYSTEM POWER and START AUTO CALIBRATION "
          "send-twice, parts 301/303/304 opcodes) are excluded"),
+ "C18": dict(
+    category="proof",
+    text="For each gateway the bytes handed to its write primitive are proved equal to the packet grammar transcribed from "
+         "the vendor documents, for fully symbolic 16- and 24-bit frames and every send-twice/answer combination: Tridonic HID "
+         "64-byte report (template, mode code, sequence-number generator by loop invariant: 1..255, never repeated), hasseb "
+         "HID two-byte writes, LUBA frame with XOR checksum, SCI five-byte frame, daliserver request and reply decoding, "
+         "legacy Tridonic / hasseb / UniPi construct and extract; unsupported frame lengths are proved to be refused before "
+         "any write. The async send paths are executed against assumed contracts of asyncio/os/transport primitives. "
+         "BOUNDED: the ATX LED hat's ASCII line format (string formatting) by exhaustive enumeration.",
+    design_ref="DESIGN.md 6 (C18), 3.9",
+    technique="contract-based deductive verification: packet grammar as the precondition of the write primitive at its call "
+              "site, z3 QF_BV; loop invariant for the sequence-number generator; bounded enumeration for the ATX hat",
+    note=TB + "; specs/gateways.py (vendor formats) and pyvc/aio.py (asyncio/os contracts) are assumed; SCI data-byte "
+         "alignment unverified (either accepted); ATX hat only bounded"),
 }
 
 NA_REASON = "check under construction in this round (no obligations built yet); see DESIGN.md section 6"
